@@ -27,9 +27,16 @@ type vShape struct {
 	AS [2][]int64
 	N  vShNest
 	IF interface{}
+	SA [][2]*vShIn          // slice of arrays holding pointers
+	MA map[string][2][]int64 // map of arrays holding slices
+	ST []vShArr             // slice of structs holding an array of pointers
 }
 
-var vhShapes = []string{"PS", "PT", "SS", "SP", "M", "MS", "AP", "AS", "N.L", "N.P", "IF"}
+type vShArr struct {
+	P [1]*vShIn
+}
+
+var vhShapes = []string{"PS", "PT", "SS", "SP", "M", "MS", "AP", "AS", "N.L", "N.P", "IF", "SA", "MA", "ST"}
 
 // vhShapeBuild fills the chosen container with the payload x and
 // returns functions reading the payload back / mutating the cell in place.
@@ -136,6 +143,36 @@ func vhShapeBuild(o *vShape, shape string, x int64) (read func(*vShape) (int64, 
 			}, func(s *vShape) {
 				s.N.P.X++
 			}
+	case "SA":
+		o.SA = [][2]*vShIn{{nil, {X: x}}}
+		return func(s *vShape) (int64, bool) {
+				if len(s.SA) != 1 || s.SA[0][1] == nil {
+					return 0, false
+				}
+				return s.SA[0][1].X, true
+			}, func(s *vShape) {
+				s.SA[0][1].X++
+			}
+	case "MA":
+		o.MA = map[string][2][]int64{"k": {{x}, nil}}
+		return func(s *vShape) (int64, bool) {
+				if len(s.MA["k"][0]) != 1 {
+					return 0, false
+				}
+				return s.MA["k"][0][0], true
+			}, func(s *vShape) {
+				s.MA["k"][0][0]++
+			}
+	case "ST":
+		o.ST = []vShArr{{P: [1]*vShIn{{X: x}}}}
+		return func(s *vShape) (int64, bool) {
+				if len(s.ST) != 1 || s.ST[0].P[0] == nil {
+					return 0, false
+				}
+				return s.ST[0].P[0].X, true
+			}, func(s *vShape) {
+				s.ST[0].P[0].X++
+			}
 	case "IF":
 		o.IF = []*vShIn{{X: x}}
 		return func(s *vShape) (int64, bool) {
@@ -173,7 +210,7 @@ func VH_C14_clone() {
 // changes what later reads return; two reads share no mutable memory.
 func VH_C14_db() {
 	cfg := vhPickCfg()
-	shapes := []string{"PS", "PT", "SS", "SP", "M", "MS", "AP", "AS", "N.L", "N.P"}
+	shapes := []string{"PS", "PT", "SS", "SP", "M", "MS", "AP", "AS", "N.L", "N.P", "SA", "MA", "ST"}
 	shape := shapes[vChoice("shape", len(shapes))]
 	x := vInt64("x")
 	root := vTempDir()
